@@ -17,9 +17,54 @@ def register(M):
         return Obj('assoc', kty=kty, vty=vty, entries=tuple(entries))
     M.new_assoc = new_assoc
 
+    def source_is_identity(ex):
+        """Does `event::Source` compare by pointer (its hand-written PartialEq uses Arc::ptr_eq)?  If the crate compares it by
+        value instead (a derive), keys holding a Source are equal when their contents are."""
+        c = getattr(ex.prog, '_source_identity', None)
+        if c is None:
+            bodies = [b for (t, b) in ex.prog.by_method.get(('Source', 'eq'), []) if t == 'PartialEq']
+            c = any('ptr_eq' in '\n'.join(b.text) for b in bodies)
+            ex.prog._source_identity = c
+        return c
+
+    def has_source(ex, v, depth=0):
+        v = ex.materialize(v)
+        if isinstance(v, Adt):
+            if T.type_name_hint(v.ty)[0] == 'Source':
+                return True
+            return depth < 3 and any(has_source(ex, f, depth + 1) for f in v.fields.values())
+        return False
+
+    def value_eq(ex, a, b):
+        a, b = ex.materialize(a), ex.materialize(b)
+        if a is b:
+            return z3.BoolVal(True)
+        if z3.is_expr(a) and z3.is_expr(b):
+            return a == b
+        if isinstance(a, Adt) and isinstance(b, Adt) and T.type_name_hint(a.ty)[0] == 'Source':
+            ra, rb = ex.materialize(a.fields[(None, 0)]), ex.materialize(b.fields[(None, 0)])
+            if isinstance(ra, Ref) and isinstance(rb, Ref):
+                if ra.cell is rb.cell and ra.path == rb.path:
+                    return z3.BoolVal(True)
+                na, nb = sorted((ra.cell.name or 'cell%d' % ra.cell.id, rb.cell.name or 'cell%d' % rb.cell.id))
+                return z3.Bool('same-content(%s,%s)' % (na, nb))      # two allocations whose gherkin values may be equal
+        if isinstance(a, Adt) and isinstance(b, Adt):
+            c = []
+            if a.discr is not None or b.discr is not None:
+                c.append(M.discr(ex, a) == M.discr(ex, b))
+            for k in sorted(set(a.fields) & set(b.fields), key=repr):
+                e = value_eq(ex, a.fields[k], b.fields[k])
+                if k[0] is not None and a.discr is not None:
+                    e = z3.Implies(M.discr(ex, a) == bv(k[0] if isinstance(k[0], int) else 0), e)
+                c.append(e)
+            return z3.And(*c) if c else z3.BoolVal(True)
+        return M.deep_eq(ex, a, b)
+
     def key_eq(ex, m, k1, k2):
         if re.sub(r"'\w+|[&\s]|mut\b", '', m.kty or '') in ('str', 'String', 'std::string::String'):
             return M.str_eq(ex, None, [k1, k2], 'bool')       # string keys compare by content
+        if not source_is_identity(ex) and has_source(ex, k1):
+            return value_eq(ex, k1, k2)
         try:
             sh = M.shape(m.kty)
         except Inconclusive:
@@ -62,6 +107,15 @@ def register(M):
     def _(ex, info, a, dty):
         g = generic_args(dty or '')
         return Obj('assoc', kty=g[0] if g else '?', vty='()', entries=())
+
+    @reg('HashMap::clear', 'HashSet::clear')
+    def _(ex, info, a, dty):
+        cell, path = ex.deref(a[0])
+        m = ex.read_path(cell, path)
+        if isinstance(m, Obj) and m.kind == 'assoc':
+            ex.write_path(cell, path, m.set(entries=()))
+            return UNIT
+        raise Inconclusive('clear on %r' % (m,))
 
     @reg('HashSet::insert')
     def _(ex, info, a, dty):
